@@ -653,7 +653,7 @@ func init() {
 			{Name: "switch-gotomap-after-nonconstant-case", File: "fast/switch.go", Old: "\tif seen.AllConst {\n\t\tseen.GotoMap[val] = entry\n\t}", New: "\tseen.GotoMap[val] = entry"},
 			{Name: "switch-table-from-all-constants", File: "fast/switch2.go", Old: "\t\t\tfor k, v := range seen.GotoMap {\n\t\t\t\tm[int(xr.ValueOf(k).Int())] = v.IP", New: "\t\t\tfor k, v := range seen.ConstMap {\n\t\t\t\tm[int(xr.ValueOf(k).Int())] = v.IP"},
 			{Name: "fallthrough-lands-on-next-header", File: "fast/switch.go", Old: "env.IP += 2 // +2 to skip", New: "env.IP += 1 // +2 to skip"},
-			{Name: "switch-default-body-not-skipped", File: "fast/switch.go", Old: "\t\tip := iend\n\t\tenv.IP = ip\n\t\treturn env.Code[ip], env\n\t}, node.Pos())\n\tc.switchCaseBody(node.Body, canfallthrough)", New: "\t\tip := env.IP + 1\n\t\tenv.IP = ip\n\t\treturn env.Code[ip], env\n\t}, node.Pos())\n\tc.switchCaseBody(node.Body, canfallthrough)"},
+			{Name: "switch-default-body-not-skipped", File: "fast/switch.go", Old: "\t\tip := iend\n\t\tenv.IP = ip\n\t\treturn env.Code[ip], env\n\t}, node.Pos())\n\tc.switchCaseBody(node.Body, canfallthrough)", New: "\t\tip := iend\n\t\tip = env.IP + 1\n\t\tenv.IP = ip\n\t\treturn env.Code[ip], env\n\t}, node.Pos())\n\tc.switchCaseBody(node.Body, canfallthrough)"},
 			{Name: "haslabel-without-equality", File: "fast/global.go", Old: "return i >= 0 && i < len(l.ThisLabels) && l.ThisLabels[i] == label", New: "return i >= 0 && i < len(l.ThisLabels)"},
 			{Name: "select-labels-unsorted", File: "fast/select.go", Old: "\tsort.Strings(labels)\n", New: "\tsort.Sort(sort.Reverse(sort.StringSlice(labels)))\n"},
 			{Name: "select-default-falls-into-next-clause", File: "fast/select.go", Old: "\t\tc.List(node.Body)\n\t}\n\tc.jumpOut(0, c.Loop.Break)\n", New: "\t\tc.List(node.Body)\n\t}\n"},
